@@ -120,6 +120,10 @@ def run(tier):
             for spaced in (False, True):
                 sep = " , " if spaced else ","
                 chosen.append({"s": cl("f" * nlen + ("( " if spaced else "(") + sep.join(["$f"] * nrefs) + (" )" if spaced else ")")), "illegal": False, "simple": True, "legal": True})
+    # chains of one-argument applications of a name (Intent.tla ClearlyLegalChain): every argument of every link is owed its mention
+    for nlen in (1, 3):
+        for links in (2, 3, 4, 5):
+            chosen.append({"s": cl("f" * nlen + "($f)" * links), "illegal": False, "simple": False, "legal": True})
     for depth in ((10, 40) if tier == "quick" else (10, 40, 200, 1000)):
         chosen.append({"s": cl("f(" * depth + "$f" + ")" * depth), "illegal": False, "simple": False, "legal": True})
     for si, st in enumerate(chosen):
